@@ -15,7 +15,7 @@ use crate::monitors::{exec_spend, guard, raise_class, Produced};
 use crate::rng::{fnv, mix};
 use crate::sim::{Env, World};
 use crate::vm::{Flags, VmError};
-use crate::wallet::{god_sat, WorldSat};
+use crate::wallet::{god_sat_slots, WorldSat};
 
 /// The documented capability rule of `Assets::keys`, written independently: a key source
 /// (fingerprint, path) can sign for a key whose origin fingerprint matches and whose full derivation
@@ -41,6 +41,25 @@ fn cap_keys(env: &Env, i: usize, assets: &Assets) -> Vec<usize> {
         }
     }
     out
+}
+
+/// Independent model of `CanSign`: may key `k` produce the signature `slot` according to `assets`?
+fn model_slot(env: &Env, assets: &Assets, k: usize, slot: crate::wallet::Slot) -> bool {
+    use miniscript::plan::TaprootAvailableLeaves as L;
+    let origin = &env.uni.keys[k].origin;
+    assets.keys.iter().any(|(src, cs)| {
+        model_can_sign(origin, src)
+            && match slot {
+                crate::wallet::Slot::Ecdsa => cs.ecdsa,
+                crate::wallet::Slot::TapKey => cs.taproot.key_spend,
+                crate::wallet::Slot::TapLeaf(l) => match &cs.taproot.script_spend {
+                    L::None => false,
+                    L::Any => true,
+                    L::Single(x) => *x == l,
+                    L::Many(v) => v.contains(&l),
+                },
+            }
+    })
 }
 
 fn asset_hashes(env: &Env, assets: &Assets) -> Vec<usize> {
@@ -162,7 +181,8 @@ pub fn check_plan_from_assets(w: &mut World, i: usize, assets: &Assets) {
     let lock = assets.absolute_timelock.map(|l| l.to_consensus_u32()).unwrap_or(0);
     let seq = assets.relative_timelock.map(|l| l.to_sequence().0).unwrap_or(0xFFFF_FFFE);
     let tx_max = tx_with(&env, i, lock, seq, 2);
-    let sat_max = god_sat(&env, &tx_max, i, &keys, &hashes, mix(&[env.run_seed, 0x7431, i as u64]));
+    let allow = |k: usize, slot: crate::wallet::Slot| model_slot(&env, assets, k, slot);
+    let sat_max = god_sat_slots(&env, &tx_max, i, &keys, &hashes, mix(&[env.run_seed, 0x7431, i as u64]), &allow);
     let skel = crate::monitors::skeleton_hash(&text);
     for mall in [false, true] {
         let plan = match guard(w, "into_plan(assets)", "coord", |_| if mall { desc.clone().into_plan_mall(assets) } else { desc.clone().into_plan(assets) }) {
@@ -259,7 +279,7 @@ pub fn check_plan_from_assets(w: &mut World, i: usize, assets: &Assets) {
         let p_lock = plan.absolute_timelock.map(|l| l.to_consensus_u32()).unwrap_or(0);
         let p_seq = plan.relative_timelock.map(|l| l.to_sequence().0).unwrap_or(0xFFFF_FFFE);
         let tx_p = tx_with(&env, i, p_lock, p_seq, 2);
-        let sat_p = god_sat(&env, &tx_p, i, &keys, &hashes, mix(&[env.run_seed, 0x7434, i as u64]));
+        let sat_p = god_sat_slots(&env, &tx_p, i, &keys, &hashes, mix(&[env.run_seed, 0x7434, i as u64]), &allow);
         let fill = |w: &mut World, s: &WorldSat| guard(w, "Plan::satisfy", "coord", |_| plan.satisfy(s));
         match fill(w, &sat_p) {
             Some(Ok((wit, ss))) => {
@@ -304,7 +324,7 @@ pub fn check_plan_from_assets(w: &mut World, i: usize, assets: &Assets) {
                 }
                 for (lt, sq, what) in variants {
                     let tx_v = tx_with(&env, i, lt, sq, 2);
-                    let sat_v = god_sat(&env, &tx_v, i, &keys, &hashes, mix(&[env.run_seed, 0x7435, lt as u64, sq as u64]));
+                    let sat_v = god_sat_slots(&env, &tx_v, i, &keys, &hashes, mix(&[env.run_seed, 0x7435, lt as u64, sq as u64]), &allow);
                     if let Some(Ok((wv, sv))) = fill(w, &sat_v) {
                         w.stats.oracle_calls += 1;
                         if exec_spend(w, &tx_v, i, &wv, &sv, Flags::CONSENSUS).is_ok() {
